@@ -133,8 +133,11 @@ def gen_ufo(rng):
 # feature file
 
 def _comment(rng):
+    # (the last three CONTAIN the marker text without starting with it - a commented-out marker,
+    # a remark about it: ordinary comments)
     return rng.choice(["# note", "# hand-written", "# TODO check", "#", "# keep: Automatic",
-                       "# code below"])
+                       "# code below", "# # Automatic Code", "## Automatic Code",
+                       "# no # Automatic Code marker here"])
 
 
 def _block(kind, name, lines, rng=None, ext=False):
